@@ -19,6 +19,7 @@ EXPLANATION = (
     "side dispatches on exactly these letters, reads the coordinates in order and carries the current point forward, "
     "so the TikZ segments are the SVG path point for point (C09.STEPFORMAT, C09.LINK).  Precision classes may differ "
     "(%i vs %.16f) as the property allows.  Margins are excluded (documented limitation)."
+    "  Also part of this check: the two colour formatters agree (C20.HEX-AGREE), TeX colour names are unique per datum (C20.NUMERATION), both exporters draw the axis iff showTicks (C07.EXPORT-CALLS), the caller's options reach both (GEN.OPTS-MERGE)."
 )
 ASSUMPTIONS = []
 
